@@ -25,6 +25,8 @@ let process line =
     let j = ref 0 in
     let s = ref (fresh c) in
     let ev = ref ev_fresh in
+    let per = ref per_fresh in
+    let interval = z_of_string "10000000" in
     let b = Buffer.create 512 in
     let add x = Buffer.add_char b ' '; Buffer.add_string b x in
     (* int16 wrap of INT arithmetic is outside the generated value range; values are printed as they are *)
@@ -42,10 +44,11 @@ let process line =
          | _ -> incr j; Some OFault) in
       (match op with Some op -> s := step_gen c !s op | None -> ());
       ev := ev_step false faulted_before !ev !evop;
+      per := per_step false interval faulted_before !s.r_time !per !evop;
       List.iter (fun v -> add (string_of_z v)) !s.r_g;
       List.iteri (fun pi _ -> List.iter (fun v -> add (string_of_z v)) (inst_vars !s (nat_of_int pi))) progs;
       List.iter (fun v -> add (string_of_z v)) !s.r_out;
-      add (string_of_z !s.r_time); add (if !s.r_faulted then "1" else "0"); add (string_of_z !ev.e_count)
+      add (string_of_z !s.r_time); add (if !s.r_faulted then "1" else "0"); add (string_of_z !ev.e_count); add (string_of_z !per.p_count)
     done;
     (* judge the implementation's observations *)
     let j =
@@ -72,7 +75,7 @@ let process line =
              let g = List.map (fun _ -> tx ()) globals in
              let ps = List.map (fun vars -> List.map (fun _ -> tx ()) vars) progs in
              let out = List.init nb (fun _ -> tx ()) in
-             let tm = tx () in let f = tx () <> Z0 in let _evc = tx () in
+             let tm = tx () in let f = tx () <> Z0 in let _evc = tx () in let _pc = tx () in
              (nat_of_int k, { o_g = g; o_p = ps; o_out = out; o_time = tm; o_faulted = f })) (List.rev !kinds) in
            judge c l
          with _ -> false)
